@@ -136,4 +136,202 @@ theorem not_ordered_shared_self (a : Access) (hp : a.phase = Phase.live) (hr : a
   · obtain ⟨c, h₁, h₂⟩ := h; exact hc c h₁ h₂
   · obtain ⟨c, h₁, h₂⟩ := h; exact hc c h₁ h₂
 
+/-! ### The grouped decision (what the kernel evaluates on the extracted table) -/
+
+theorem goRuns_sound (rest : List Access) : ∀ (cur : List Access) (f : Nat),
+    (∀ x ∈ cur, x.field = f) → goRuns cur rest = true →
+    (cur ≠ [] → ∀ y ∈ rest, f ≤ y.field) ∧ raceFree (cur ++ rest) := by
+  induction rest with
+  | nil =>
+    intro cur f _ h
+    simp only [goRuns] at h
+    exact ⟨fun _ y hy => by simp at hy, by simpa using (raceFreeW_iff cur).mp h⟩
+  | cons b rest ih =>
+    intro cur f hf h
+    cases cur with
+    | nil =>
+      simp only [goRuns] at h
+      have := ih [b] b.field (by simp) h
+      exact ⟨fun hne => absurd rfl hne, by simpa using this.2⟩
+    | cons a cur =>
+      simp only [goRuns] at h
+      have haf : a.field = f := hf a (by simp)
+      split at h
+      · rename_i hba
+        have hba : b.field = a.field := by simpa using hba
+        have := ih (b :: a :: cur) f (by
+          intro x hx
+          rcases List.mem_cons.mp hx with hx | hx
+          · rw [hx, hba, haf]
+          · exact hf x hx) h
+        refine ⟨fun _ y hy => ?_, ?_⟩
+        · rcases List.mem_cons.mp hy with hy | hy
+          · rw [hy, hba, haf]; exact Nat.le_refl _
+          · exact this.1 (by simp) y hy
+        · refine raceFree_of_subset ?_ this.2
+          intro x hx
+          simp only [List.mem_append, List.mem_cons] at hx ⊢
+          rcases hx with (hx | hx) | hx | hx
+          · exact Or.inl (Or.inr (Or.inl hx))
+          · exact Or.inl (Or.inr (Or.inr hx))
+          · exact Or.inl (Or.inl hx)
+          · exact Or.inr hx
+      · simp only [Bool.and_eq_true, Nat.blt_eq] at h
+        obtain ⟨⟨hlt, hw⟩, hr⟩ := h
+        have := ih [b] b.field (by simp) hr
+        have hge : ∀ y ∈ b :: rest, f < y.field := by
+          intro y hy
+          rcases List.mem_cons.mp hy with hy | hy
+          · rw [hy, ← haf]; exact hlt
+          · exact Nat.lt_of_lt_of_le (haf ▸ hlt) (this.1 (by simp) y hy)
+        refine ⟨fun _ y hy => Nat.le_of_lt (hge y hy), ?_⟩
+        refine raceFree_append_disjoint ((raceFreeW_iff _).mp hw) (by simpa using this.2) ?_
+        intro x hx y hy hxy
+        have := hge y hy
+        rw [← hxy, hf x hx] at this
+        exact Nat.lt_irrefl _ this
+
+/-- the grouped decision is sound for every table -/
+theorem raceFreeG_sound (tbl : List Access) (h : raceFreeG tbl = true) : raceFree tbl := by
+  simpa using (goRuns_sound tbl [] 0 (by simp) h).2
+
+theorem goRuns_complete (rest : List Access) : ∀ (cur : List Access) (f : Nat),
+    (∀ x ∈ cur, x.field = f) → (cur ≠ [] → ∀ y ∈ rest, f ≤ y.field) → sortedByField rest →
+    raceFree (cur ++ rest) → goRuns cur rest = true := by
+  induction rest with
+  | nil =>
+    intro cur f _ _ _ h
+    simp only [goRuns]
+    exact (raceFreeW_iff cur).mpr (by simpa using h)
+  | cons b rest ih =>
+    intro cur f hf hge hs h
+    obtain ⟨hb, hs'⟩ := hs
+    cases cur with
+    | nil =>
+      simp only [goRuns]
+      exact ih [b] b.field (by simp) (fun _ y hy => hb y hy) hs' (by simpa using h)
+    | cons a cur =>
+      simp only [goRuns]
+      have haf : a.field = f := hf a (by simp)
+      split
+      · rename_i hba
+        have hba : b.field = a.field := by simpa using hba
+        refine ih (b :: a :: cur) f ?_ ?_ hs' ?_
+        · intro x hx
+          rcases List.mem_cons.mp hx with hx | hx
+          · rw [hx, hba, haf]
+          · exact hf x hx
+        · intro _ y hy
+          have := hb y hy
+          rw [hba, haf] at this
+          exact this
+        · refine raceFree_of_subset ?_ h
+          intro x hx
+          simp only [List.mem_append, List.mem_cons] at hx ⊢
+          rcases hx with (hx | hx | hx) | hx
+          · exact Or.inr (Or.inl hx)
+          · exact Or.inl (Or.inl hx)
+          · exact Or.inl (Or.inr hx)
+          · exact Or.inr (Or.inr hx)
+      · rename_i hba
+        have hne : b.field ≠ a.field := by simpa using hba
+        have hle : a.field ≤ b.field := by
+          have := hge (by simp) b (by simp)
+          rw [← haf] at this
+          exact this
+        simp only [Bool.and_eq_true, Nat.blt_eq]
+        refine ⟨⟨Nat.lt_of_le_of_ne hle (fun h' => hne h'.symm), ?_⟩, ?_⟩
+        · exact (raceFreeW_iff _).mpr (raceFree_of_subset (fun x hx => List.mem_append_left _ hx) h)
+        · refine ih [b] b.field (by simp) (fun _ y hy => hb y hy) hs' ?_
+          exact raceFree_of_subset (fun x hx => List.mem_append_right _ (by simpa using hx)) h
+
+/-- on a table in the generator's order the grouped decision is also complete -/
+theorem raceFreeG_complete (tbl : List Access) (hs : sortedByField tbl) (h : raceFree tbl) :
+    raceFreeG tbl = true :=
+  goRuns_complete tbl [] 0 (by simp) (fun h => absurd rfl h) hs (by simpa using h)
+
+theorem sortedByFieldB_iff (t : List Access) : sortedByFieldB t = true ↔ sortedByField t := by
+  induction t with
+  | nil => simp [sortedByFieldB, sortedByField]
+  | cons a rest ih =>
+    simp only [sortedByFieldB, sortedByField, Bool.and_eq_true, List.all_eq_true, Nat.ble_eq, ih]
+
+/-- Non-vacuity of a table, decided on neighbouring rows only (the generator sorts by field, then by
+function, so a field accessed from two functions shows up as two adjacent rows). -/
+def adjacentLiveConflict : List Access → Bool
+  | a :: b :: rest =>
+    (conflictB a b && a.phase == Phase.live && b.phase == Phase.live && a.fn != b.fn)
+      || adjacentLiveConflict (b :: rest)
+  | _ => false
+
+theorem exists_live_conflict (tbl : List Access) (h : adjacentLiveConflict tbl = true) :
+    ∃ a ∈ tbl, ∃ b ∈ tbl, conflict a b ∧ a.phase = Phase.live ∧ b.phase = Phase.live ∧ a.fn ≠ b.fn := by
+  induction tbl with
+  | nil => simp [adjacentLiveConflict] at h
+  | cons a t ih =>
+    cases t with
+    | nil => simp [adjacentLiveConflict] at h
+    | cons b rest =>
+      simp only [adjacentLiveConflict, Bool.or_eq_true, Bool.and_eq_true, beq_iff_eq, bne_iff_ne] at h
+      rcases h with ⟨⟨⟨hc, hpa⟩, hpb⟩, hfn⟩ | h
+      · exact ⟨a, by simp, b, by simp, (conflictB_iff a b).mp hc, hpa, hpb, hfn⟩
+      · obtain ⟨x, hx, y, hy, hh⟩ := ih h
+        exact ⟨x, List.mem_cons_of_mem _ hx, y, List.mem_cons_of_mem _ hy, hh⟩
+
+/-! ### Published (frozen) locations: readers need no lock -/
+
+theorem frozenInB_iff (t : List Access) (f : Nat) : frozenInB t f = true ↔ frozenIn t f := by
+  simp only [frozenInB, frozenIn, List.all_eq_true, Bool.or_eq_true, Bool.not_eq_true', beq_iff_eq,
+    beq_eq_false_iff_ne, ne_eq]
+  constructor
+  · intro h a ha hf hk
+    rcases h a ha with (h' | h') | h'
+    · exact absurd hf h'
+    · exact absurd hk h'
+    · exact h'
+  · intro h a ha
+    by_cases hf : a.field = f
+    · by_cases hk : a.kind = Kind.W
+      · exact Or.inr (h a ha hf hk)
+      · exact Or.inl (Or.inr hk)
+    · exact Or.inl (Or.inl hf)
+
+/-- Readers of frozen locations can be added to a race-free table at will: whatever function they
+sit in, whatever locks they hold or do not hold, whatever goroutine runs them. -/
+theorem raceFree_add_readers {t rs : List Access} (h : raceFree t)
+    (hr : ∀ r ∈ rs, r.kind = Kind.R ∧ frozenIn t r.field) : raceFree (t ++ rs) := by
+  intro a ha b hb hc
+  rcases List.mem_append.mp ha with ha | ha <;> rcases List.mem_append.mp hb with hb | hb
+  · exact h a ha b hb hc
+  · have hbk := (hr b hb).1
+    rcases hc.2 with hk | hk
+    · exact Or.inl ((hr b hb).2 a ha hc.1 hk)
+    · rw [hbk] at hk; cases hk
+  · have hak := (hr a ha).1
+    rcases hc.2 with hk | hk
+    · rw [hak] at hk; cases hk
+    · exact Or.inr (Or.inl ((hr a ha).2 b hb hc.1.symm hk))
+  · have hak := (hr a ha).1
+    have hbk := (hr b hb).1
+    rcases hc.2 with hk | hk
+    · rw [hak] at hk; cases hk
+    · rw [hbk] at hk; cases hk
+
+/-- A live write that holds no lock, has no role and no close edge is unordered with every live access
+that is not ordered with it by construction: one such write to a location somebody else reads refutes
+the discipline. -/
+theorem not_ordered_bare_write {w r : Access} (hwp : w.phase = Phase.live) (hrp : r.phase = Phase.live)
+    (hro : w.role = 0) (hh : w.held = []) (hrel : w.relAfter = []) (hacq : w.acqBefore = []) :
+    ¬ ordered w r := by
+  rintro (h | h | h | h | h | h)
+  · rw [hwp] at h; cases h
+  · rw [hrp] at h; cases h
+  · exact h.1 hro
+  · obtain ⟨l, m₁, m₂, h₁, _, _⟩ := h
+    rw [hh] at h₁; cases h₁
+  · obtain ⟨c, h₁, _⟩ := h
+    rw [hrel] at h₁; cases h₁
+  · obtain ⟨c, _, h₂⟩ := h
+    rw [hacq] at h₂; cases h₂
+
 end ScVerif.C11
